@@ -685,14 +685,21 @@ func (s *Server) filterBatchLocked(next jmessages) jmessages {
 		// deliver the result to that call. Do this early to avoid deadlocking on
 		// the sequencing barrier (see #78).
 		//
-		// Note, however, if it does NOT correspond to a known push-call, keep it
-		// in the batch so it can be serviced as an error.
+		// If it does NOT correspond to a known push-call, what to do depends on
+		// whether push is enabled. If not, the client has no business sending
+		// replies: keep it in the batch so it can be serviced as an error. If
+		// so, it is a late, duplicate or unsolicited reply to a callback that
+		// is no longer waiting: drop it. Answering it would put an error on the
+		// wire bearing an ID from the server's callback ID space, which the
+		// client could mistake for the reply to one of its own calls.
 		id := string(fixID(req.ID))
 		if s.call[id] != nil {
 			rsp := s.call[id]
 			delete(s.call, id)
 			rsp.ch <- req
 			s.log("Received response for callback %q", id)
+		} else if s.allowP {
+			s.log("Discarding response for unknown callback %q", id)
 		} else {
 			keep = append(keep, req)
 		}
